@@ -12,7 +12,8 @@ def StopFacts (cfg : Cfg) (t : List Byte) (n : Nat) (r : Code × Val × Nat) : P
   (r.1 = .incomplete ∨ r.1 = .empty → r.2.2 = n + 1) ∧
   (r.1 = .invalid →
     (1 ≤ r.2.2 ∧ r.2.2 ≤ n ∧ ∃ c, t[r.2.2 - 1]? = some c ∧ c ≠ 0) ∨ (r.2.2 = n + 1 ∧ Dang cfg t n)) ∧
-  (r.1 = .tooDeep ∨ r.1 = .noMemory → r.2.2 ≤ n)
+  (r.1 = .tooDeep → r.2.2 ≤ n) ∧
+  (r.1 = .noMemory → r.2.2 ≤ n ∨ (r.2.2 = n + 1 ∧ LongTail cfg (t.take n)))
 
 theorem Lv.pos_le {t : List Byte} {n : Nat} {s : St} (h : Lv t n s) : s.l.pos ≤ n + 1 := by
   cases hl : s.l.loaded
@@ -44,31 +45,41 @@ theorem run_stop {cfg : Cfg} {t : List Byte} {n : Nat} (hN : NulAt t n) (L : Nat
       obtain ⟨_, _, _, _, _, _, _, hld⟩ := hs v s (Rem.un rfl) rfl
       have htk : Tk t n s := ⟨⟨hl, hld hc.2⟩, hc.1.1⟩
       obtain ⟨b1, b2⟩ := Ld_d0.byte htk.1
-      refine ⟨hl.pos_le, (fun h => by rcases h with h | h <;> cases h), fun _ => ?_, (fun h => by rcases h with h | h <;> cases h)⟩
+      refine ⟨hl.pos_le, (fun h => by rcases h with h | h <;> cases h), fun _ => ?_, (fun h => by cases h), (fun h => by cases h)⟩
       exact Or.inl ⟨b1, Tk.pos_le hN htk, _, b2, hc.1.1⟩
     · exact ⟨hl.pos_le, (fun h => by rcases h with h | h <;> cases h), (fun h => by cases h),
-        (fun h => by rcases h with h | h <;> cases h)⟩
+        (fun h => by cases h), (fun h => by cases h)⟩
   · -- empty
     have hp : s.l.pos = n + 1 := hg
-    exact ⟨Nat.le_of_eq hp, fun _ => hp, (fun h => by cases h), (fun h => by rcases h with h | h <;> cases h)⟩
+    exact ⟨Nat.le_of_eq hp, fun _ => hp, (fun h => by cases h), (fun h => by cases h), (fun h => by cases h)⟩
   · -- incomplete
     have hp : s.l.pos = n + 1 := hg
-    exact ⟨Nat.le_of_eq hp, fun _ => hp, (fun h => by cases h), (fun h => by rcases h with h | h <;> cases h)⟩
+    exact ⟨Nat.le_of_eq hp, fun _ => hp, (fun h => by cases h), (fun h => by cases h), (fun h => by cases h)⟩
   · -- invalid
     have hi : Ld_d0 t n s ∧ (s.l.cur = 0 → Dang cfg t n) := hg
-    refine ⟨hi.1.1.pos_le, (fun h => by rcases h with h | h <;> cases h), fun _ => ?_, (fun h => by rcases h with h | h <;> cases h)⟩
+    refine ⟨hi.1.1.pos_le, (fun h => by rcases h with h | h <;> cases h), fun _ => ?_, (fun h => by cases h), (fun h => by cases h)⟩
     by_cases hz : s.l.cur = 0
     · exact Or.inr ⟨Ld_d0.pos_zero hN hi.1 hz, hi.2 hz⟩
     · obtain ⟨b1, b2⟩ := Ld_d0.byte hi.1
       exact Or.inl ⟨b1, Tk.pos_le hN ⟨hi.1, hz⟩, _, b2, hz⟩
   · -- noMemory
-    have hm : Lv t n s ∧ s.l.loaded = false := hg
-    have := hm.1.2.2 hm.2
-    exact ⟨by simp only; omega, (fun h => by rcases h with h | h <;> cases h), (fun h => by cases h), fun _ => this⟩
+    have hm : Lv t n s ∧ (s.l.loaded = true → LongKey cfg t s) := hg
+    refine ⟨hm.1.pos_le, (fun h => by rcases h with h | h <;> cases h), (fun h => by cases h), (fun h => by cases h), fun _ => ?_⟩
+    cases hl : s.l.loaded with
+    | false => exact Or.inl (hm.1.2.2 hl)
+    | true =>
+      by_cases hz : s.l.cur = 0
+      · have hp := Ld_d0.pos_zero hN ⟨hm.1, hl⟩ hz
+        have hk := hm.2 hl
+        unfold LongKey at hk
+        rw [hp] at hk
+        exact Or.inr ⟨hp, by simpa using hk⟩
+      · exact Or.inl (Tk.pos_le hN ⟨⟨hm.1, hl⟩, hz⟩)
   · -- tooDeep
     have ht : Tk t n s := hg
     have := Tk.pos_le hN ht
-    exact ⟨by simp only; omega, (fun h => by rcases h with h | h <;> cases h), (fun h => by cases h), fun _ => this⟩
+    exact ⟨by simp only; omega, (fun h => by rcases h with h | h <;> cases h), (fun h => by cases h), (fun _ => this),
+      (fun h => by cases h)⟩
   · exact absurd rfl hnf
 
 end JD
